@@ -160,7 +160,7 @@ VALUE_CODES = ['nan', 'zero', 'one', 'eq', 'eq', 'ulp+', 'ulp+', 'ulp-', '+8', '
 
 @st.composite
 def strat_synth(draw, tier):
-    n = draw(st.integers(1, 40))
+    n = draw(st.one_of(st.integers(1, 40), st.integers(1, 40), st.integers(0, 3)))      # empty and one- to three-row tables included
     whole = draw(st.integers(0, 5)) == 0     # every cycle qualifies and the table is about min_n_cycles + 2 rows long
     th = {}
     for c in COLS:
@@ -173,7 +173,7 @@ def strat_synth(draw, tier):
     good = st.sampled_from(['ulp+', 'ulp+', '+8', '+8', 'one'])
     bad = st.sampled_from(['nan', 'zero', 'eq', 'eq', 'ulp-', '-8'])
     cols = {c: [] for c in COLS}
-    if whole:
+    if whole and n:
         n = max(1, th.get('min_n_cycles', 3) + draw(st.sampled_from([1, 2, 2, 2, 3])))
     for _ in range(n):
         nfail = 0 if whole else draw(st.sampled_from([0, 0, 0, 0, 1, 1, 2]))
